@@ -4,7 +4,10 @@ mod choices;
 mod mmr;
 mod runner;
 mod sim;
+mod simchain;
 mod stream;
+mod wallet;
+mod walletscen;
 
 use std::path::PathBuf;
 use std::sync::Arc;
@@ -47,6 +50,9 @@ fn scenarios_for(id: &str) -> Vec<Arc<dyn Scenario>> {
     match id {
         "C20" => vec![Arc::new(mmr::Mmr)],
         "C03" => vec![Arc::new(stream::Stream), Arc::new(stream::Enc)],
+        "C01" => vec![Arc::new(walletscen::WalletScenario { prop: "C01" })],
+        "C06" => vec![Arc::new(walletscen::WalletScenario { prop: "C06" })],
+        "C15" => vec![Arc::new(walletscen::WalletScenario { prop: "C15" })],
         _ => vec![],
     }
 }
